@@ -60,6 +60,68 @@ CONST = re.compile(r"(?<![\w.])(\d{1,4})(?![\w.])")
 CALL_STMT = re.compile(r"^\s*(self\.[a-z_\.]+\([^;]*\)|src\.[a-z_]+\([^;]*\)|[a-z_]+\.[a-z_]+\([^;]*\));\s*$")
 
 
+ARG_LINE = re.compile(r"^\s*[A-Za-z_&\*][A-Za-z0-9_\.\(\)&\* ]*,\s*$")
+ASSIGN_STMT = re.compile(r"^\s*[a-z_][a-z_0-9\.]*(\.[a-z_0-9]+)+\s*(\+|-)?=\s*[^=].*;\s*$")
+INLINE_ARGS = re.compile(r"\(([a-z_][a-z_0-9\.]*), ([a-z_][a-z_0-9\.]*)\)")
+
+
+def sites3(repo):
+    """third operator set: positional arguments swapped, assignments deleted"""
+    out = []
+    for f in FILES:
+        p = os.path.join(repo, f)
+        if not os.path.exists(p):
+            continue
+        lines = open(p).read().split("\n")
+        end = len(lines)
+        for i, l in enumerate(lines):
+            if l.strip().startswith("#[cfg(test)]"):
+                end = i
+                break
+        for i in range(end):
+            l = lines[i]
+            s_ = l.strip()
+            if not s_ or s_.startswith("//") or "debug!(" in s_ or "error!(" in s_ or "info!(" in s_:
+                continue
+            if i + 1 < end and ARG_LINE.match(l) and ARG_LINE.match(lines[i + 1]) and ":" not in l and ":" not in lines[i + 1] and l.strip() != lines[i + 1].strip():
+                out.append((f, i, 0, l, lines[i + 1], "swap-arg-lines"))
+            if ASSIGN_STMT.match(l) and "let " not in l:
+                out.append((f, i, 0, l, "", "delete"))
+            for m in INLINE_ARGS.finditer(l.split("//")[0]):
+                if m.group(1) != m.group(2):
+                    out.append((f, i, m.start(), m.group(0), "(%s, %s)" % (m.group(2), m.group(1)), "swap-args"))
+    return out
+
+
+IF_LINE = re.compile(r"^(\s*(?:\} else )?if )(.+)( \{\s*)$")
+WHILE_LINE = re.compile(r"^(\s*while )(.+)( \{\s*)$")
+
+
+def sites4(repo):
+    """fourth operator set: a condition forced to true / false (single-line if / else-if / while heads)"""
+    out = []
+    for f in FILES:
+        p = os.path.join(repo, f)
+        if not os.path.exists(p):
+            continue
+        lines = open(p).read().split("\n")
+        end = len(lines)
+        for i, l in enumerate(lines):
+            if l.strip().startswith("#[cfg(test)]"):
+                end = i
+                break
+        for i in range(end):
+            l = lines[i]
+            m = IF_LINE.match(l)
+            if m and not m.group(2).startswith("let "):
+                out.append((f, i, 0, l, m.group(1) + "true" + m.group(3), "cond-true"))
+                out.append((f, i, 0, l, m.group(1) + "false" + m.group(3), "cond-false"))
+            m = WHILE_LINE.match(l)
+            if m and not m.group(2).startswith("let "):
+                out.append((f, i, 0, l, m.group(1) + "false" + m.group(3), "cond-false"))
+    return out
+
+
 def sites(repo, ops2=False):
     out = []
     for f in FILES:
@@ -123,6 +185,10 @@ def apply(repo, site):
     orig = lines[i]
     if kind == "delete":
         lines[i] = ""
+    elif kind == "swap-arg-lines":
+        lines[i], lines[i + 1] = lines[i + 1], lines[i]
+    elif kind in ("cond-true", "cond-false"):
+        lines[i] = b
     else:
         assert orig[k : k + len(a)] == a, (orig, k, a)
         lines[i] = orig[:k] + b + orig[k + len(a) :]
@@ -134,6 +200,10 @@ def restore(repo, site, orig):
     f, i = site[0], site[1]
     p = os.path.join(repo, f)
     lines = open(p).read().split("\n")
+    if site[5] == "swap-arg-lines":
+        lines[i], lines[i + 1] = lines[i + 1], lines[i]
+        open(p, "w").write("\n".join(lines))
+        return
     lines[i] = orig
     open(p, "w").write("\n".join(lines))
 
@@ -178,10 +248,12 @@ def main():
     ap.add_argument("--files", default="")
     ap.add_argument("--every", type=int, default=1, help="take every n-th site")
     ap.add_argument("--out", default="")
+    ap.add_argument("--ops4", action="store_true", help="fourth operator set: conditions forced to true / false")
+    ap.add_argument("--ops3", action="store_true", help="third operator set: positional arguments swapped, assignments deleted")
     ap.add_argument("--ops2", action="store_true", help="second operator set: identifier swaps, dropped negations, constants - 1")
     a = ap.parse_args()
     props = [c["property_id"] for c in json.load(open(os.path.join(HERE, "MANIFEST.json")))["checks"]]
-    all_sites = sites("/repo", a.ops2)
+    all_sites = sites4("/repo") if a.ops4 else sites3("/repo") if a.ops3 else sites("/repo", a.ops2)
     if a.files:
         keep = a.files.split(",")
         all_sites = [s for s in all_sites if any(k in s[0] for k in keep)]
